@@ -14,12 +14,15 @@ Definition flat_postings (ds : list directive) : list (Z * posting) :=
 
 Definition dsum (l : list dec) : dec := fold_left add l dec_nil.
 
-(* journal period: earliest transaction date .. latest transaction or price date, with the
-   builder's initial values when there is none *)
+(* journal period: earliest transaction date .. latest transaction or price date, starting from
+   the builder's initial values 9999-12-31 and the zero time *)
 Definition journal_period (ds : list directive) : period :=
-  let tdates := concat (map (fun d => match d with DTxn t => [t_date t] | _ => [] end) ds) in
-  let pdates := concat (map (fun d => match d with DPrice dt _ _ _ => [dt] | _ => [] end) ds) in
-  mkPeriod (fold_left Z.min tdates (of_civil 9999 12 31)) (fold_left Z.max (tdates ++ pdates) 0).
+  fold_left (fun p d =>
+    match d with
+    | DTxn t => mkPeriod (Z.min (p_start p) (t_date t)) (Z.max (p_end p) (t_date t))
+    | DPrice dt _ _ _ => mkPeriod (p_start p) (Z.max (p_end p) dt)
+    | _ => p
+    end) ds (mkPeriod (of_civil 9999 12 31) 0).
 
 Definition closable (a : account) : bool := negb (is_AL a) && negb (acc_eqb a [s_Equity; s_Equity]).
 
